@@ -25,8 +25,11 @@ import (
 	"os/exec"
 	"path/filepath"
 	"strconv"
+	"runtime"
+	"sort"
 	"strings"
 	"sync"
+	"sync/atomic"
 	"time"
 
 	pkglint "github.com/rillig/pkglint/v23"
@@ -157,10 +160,17 @@ func c10shRunImpl(input string) *c10shImpl {
 			}
 		}
 	}
+	noProgress := false
 	for q := 0; q < 13; q++ {
 		atoms, rest, pan := pkglint.VerifC10shAtomsFrom(q, input)
 		secs = append(secs, "a"+strconv.Itoa(q)+":"+c10shAtomsSection(atoms, rest, pan))
 		what := "ShAtom from state " + c10shQuotNames[q]
+		if strings.HasPrefix(pan, "panic:verif:") {
+			// the guard of the shim's loop: atoms keep coming although the input is used up
+			im.bad = append(im.bad, c10shBad{"C10/sh/no-progress", fmt.Sprintf("%s on %q returns atoms without consuming input", what, input)})
+			noProgress = true
+			continue
+		}
 		if pan != "" {
 			im.bad = append(im.bad, c10shBad{"C10/sh/panic", fmt.Sprintf("%s on %q: %s", what, input, pan)})
 			continue
@@ -178,6 +188,12 @@ func c10shRunImpl(input string) *c10shImpl {
 				im.flags |= 1
 			}
 		}
+	}
+	if noProgress {
+		// ShAtoms() and ShToken() have no guard: they would not return
+		secs = append(secs, "s:!skipped", "t:!skipped")
+		im.line = strings.Join(secs, "|")
+		return im
 	}
 	{
 		atoms, rest, pan := pkglint.VerifC10shAtoms(input)
@@ -233,24 +249,59 @@ func c10shIsWorker() bool {
 	return false
 }
 
+// The worker watches itself: when one input takes longer than the limit (or the heap
+// explodes, which is what a non-advancing loop that appends does) it answers HANG for
+// that input and exits; the parent starts a new worker for the remaining inputs.
 func c10shWorker() {
+	limit := 10 * time.Second
+	for _, a := range os.Args {
+		if v, ok := strings.CutPrefix(a, "c10shlimit="); ok {
+			if d, err := time.ParseDuration(v); err == nil {
+				limit = d
+			}
+		}
+	}
 	in := bufio.NewScanner(os.Stdin)
 	in.Buffer(make([]byte, 1<<16), 1<<24)
 	out := bufio.NewWriter(os.Stdout)
+	var mu sync.Mutex
+	var started atomic.Int64
+	go func() {
+		var ms runtime.MemStats
+		for {
+			time.Sleep(50 * time.Millisecond)
+			t0 := started.Load()
+			if t0 == 0 {
+				continue
+			}
+			runtime.ReadMemStats(&ms)
+			if time.Since(time.Unix(0, t0)) > limit || ms.HeapAlloc > 3<<30 {
+				mu.Lock()
+				out.WriteString("HANG\n")
+				out.Flush()
+				os.Exit(0)
+			}
+		}
+	}()
 	n := 0
 	for in.Scan() {
 		input := unhx(strings.TrimSpace(in.Text()))
+		started.Store(time.Now().UnixNano())
 		im := c10shRunImpl(input)
+		started.Store(0)
 		ok := "ok"
 		if len(im.bad) > 0 {
 			ok = "bad"
 		}
+		mu.Lock()
 		fmt.Fprintf(out, "%s %s %s %d %d %d\n", c10shDigest(im.line), im.tbl, ok, im.quotMask, im.typeMask, im.flags)
 		n++
-		if n%32 == 0 {
+		if n%64 == 0 {
 			out.Flush()
 		}
+		mu.Unlock()
 	}
+	mu.Lock()
 	out.Flush()
 	os.Exit(0)
 }
@@ -261,8 +312,13 @@ type c10shAnswer struct {
 	quotMask    int
 	typeMask    int
 	flags       int
-	hung        bool // no answer within the time limit
+	hung        bool // the worker gave up on this input
+	skipped     bool // not run: the run was stopped after several hangs
 }
+
+var c10shHangs atomic.Int64 // inputs on which a worker gave up, in this run
+
+const c10shMaxHangs = 3
 
 // c10shRunWorkers runs the real code on the inputs in nproc subprocesses.
 func c10shRunWorkers(inputs []string, nproc int, limit time.Duration) ([]c10shAnswer, error) {
@@ -302,35 +358,30 @@ func c10shRunWorkers(inputs []string, nproc int, limit time.Duration) ([]c10shAn
 func c10shOneWorker(inputs []string, out []c10shAnswer, limit time.Duration) error {
 	start := 0
 	for start < len(inputs) {
+		if c10shHangs.Load() >= c10shMaxHangs {
+			for k := start; k < len(inputs); k++ {
+				out[k].skipped = true
+			}
+			return nil
+		}
 		n, err := c10shWorkerRun(inputs[start:], out[start:], limit)
 		if err != nil {
 			return err
 		}
-		start += n
-		if start >= len(inputs) {
-			break
+		if n == 0 {
+			return fmt.Errorf("c10sh worker made no progress on %q", inputs[start])
 		}
-		// The worker stopped answering (it flushes every 32 answers): run the next inputs one
-		// process each, with a short limit, to find the one that does not return.
-		for k := start; k < len(inputs) && k < start+40; {
-			m, err := c10shWorkerRun(inputs[k:k+1], out[k:k+1], 20*time.Second)
-			if err != nil {
-				return err
-			}
-			k++
-			start = k
-			if m == 0 {
-				out[k-1].hung = true
-				break
-			}
+		start += n
+		if out[start-1].hung {
+			c10shHangs.Add(1)
 		}
 	}
 	return nil
 }
 
-// runs one worker process; returns how many answers arrived before the limit
+// runs one worker process; returns how many inputs it answered (the last answer may be HANG)
 func c10shWorkerRun(inputs []string, out []c10shAnswer, limit time.Duration) (int, error) {
-	cmd := exec.Command(os.Args[0], "run", "C10sh", "c10shworker=1")
+	cmd := exec.Command(os.Args[0], "run", "C10sh", "c10shworker=1", "c10shlimit="+limit.String())
 	var sb strings.Builder
 	for _, s := range inputs {
 		sb.WriteString(hx(s))
@@ -346,17 +397,24 @@ func c10shWorkerRun(inputs []string, out []c10shAnswer, limit time.Duration) (in
 	if err := cmd.Start(); err != nil {
 		return 0, err
 	}
-	timer := time.AfterFunc(limit, func() { cmd.Process.Kill() })
+	// a worker that neither answers nor gives up is a broken harness, not a finding
+	timer := time.AfterFunc(30*time.Minute, func() { cmd.Process.Kill() })
 	defer timer.Stop()
 	sc := bufio.NewScanner(pipe)
 	sc.Buffer(make([]byte, 1<<16), 1<<24)
 	n := 0
 	for sc.Scan() {
-		f := strings.Fields(sc.Text())
+		line := sc.Text()
+		if line == "HANG" && n < len(out) {
+			out[n].hung = true
+			n++
+			break
+		}
+		f := strings.Fields(line)
 		if len(f) != 6 || n >= len(out) {
 			cmd.Process.Kill()
 			cmd.Wait()
-			return n, fmt.Errorf("c10sh worker: unexpected answer %q", sc.Text())
+			return n, fmt.Errorf("c10sh worker: unexpected answer %q", line)
 		}
 		a := c10shAnswer{digest: f[0], tbl: f[1], bad: f[2] != "ok"}
 		a.quotMask, _ = strconv.Atoi(f[3])
@@ -365,8 +423,10 @@ func c10shWorkerRun(inputs []string, out []c10shAnswer, limit time.Duration) (in
 		out[n] = a
 		n++
 	}
+	for sc.Scan() {
+	}
 	werr := cmd.Wait()
-	if n < len(inputs) && werr != nil && !strings.Contains(werr.Error(), "killed") {
+	if n < len(inputs) && !(n > 0 && out[n-1].hung) {
 		return n, fmt.Errorf("c10sh worker died after %d answers: %v: %s", n, werr, eb.String())
 	}
 	return n, nil
@@ -558,6 +618,9 @@ type c10shRun struct {
 	exprHits int
 	tokHits  int
 	samples  int
+
+	hangReported bool
+	explained    map[string]int
 }
 
 // process one chunk of inputs of one family
@@ -565,23 +628,39 @@ func (r *c10shRun) process(family string, inputs []string, distinctByConstructio
 	if r.res.Broken != "" || len(inputs) == 0 {
 		return
 	}
-	limit := 300 * time.Second
-	ans, err := c10shRunWorkers(inputs, 16, limit)
+	if c10shHangs.Load() >= c10shMaxHangs {
+		return // enough failing inputs; every further hang would only cost time
+	}
+	ans, err := c10shRunWorkers(inputs, 16, r.limit())
 	if err != nil {
 		r.res.Broken = err.Error()
 		return
 	}
 	reqs := make([]string, 0, len(inputs))
 	idx := make([]int, 0, len(inputs))
+	done := 0
+	var hung []string
 	for i, a := range ans {
+		if a.skipped {
+			continue
+		}
+		done++
 		if a.hung {
-			r.res.AddViolation(Violation{Key: "C10/sh/hang", What: fmt.Sprintf("the tokenizers do not return within 20 s on %q", inputs[i]),
-				FoundInput: true, Size: 1 + len(inputs[i]),
-				Replay: map[string]any{"input": hx(inputs[i]), "input_quoted": q(inputs[i]), "family": family, "kind": "hang"}})
+			hung = append(hung, inputs[i])
 			continue
 		}
 		reqs = append(reqs, "d "+a.tbl+" "+hx(inputs[i]))
 		idx = append(idx, i)
+	}
+	// confirm the shortest hanging inputs, one replay is all that is needed
+	sort.SliceStable(hung, func(i, j int) bool { return len(hung[i]) < len(hung[j]) })
+	for i, h := range hung {
+		if i >= 2 || r.hangReported {
+			break
+		}
+		if c10shReportHang(r.res, h, family, r.limit()) {
+			r.hangReported = true
+		}
 	}
 	dig, err := c10shOraclePool(r.ctx, reqs, 16)
 	if err != nil {
@@ -592,7 +671,14 @@ func (r *c10shRun) process(family string, inputs []string, distinctByConstructio
 		a := ans[i]
 		if a.bad || dig[k] != a.digest {
 			r.mismatch++
-			if r.mismatch <= 200 { // each one is recomputed in full; a few hundred are plenty to find the smallest
+			// Each one is recomputed in full, so only some: per family (they go from short to
+			// long inputs), and separately for inputs on which the property itself fails.
+			slot := family + "/digest"
+			if a.bad {
+				slot = family + "/property"
+			}
+			if r.explained[slot] < 25 {
+				r.explained[slot]++
 				c10shExplain(r.ctx, r.res, inputs[i], family)
 			}
 		}
@@ -621,14 +707,38 @@ func (r *c10shRun) process(family string, inputs []string, distinctByConstructio
 			}
 		}
 	}
-	r.inputs += len(inputs)
-	r.res.Count("inputs."+family, len(inputs))
+	r.inputs += done
+	r.res.Count("inputs."+family, done)
 	if r.samples < 6 && len(inputs) > 3 {
 		i := len(inputs) / 3
 		im := c10shRunImpl(inputs[i])
 		r.res.Sample(map[string]any{"family": family, "input": inputs[i], "impl_line": im.line, "expr_table": im.tbl})
 		r.samples++
 	}
+}
+
+func (r *c10shRun) limit() time.Duration {
+	if r.ctx.Tier == "thorough" {
+		return 30 * time.Second
+	}
+	return 10 * time.Second
+}
+
+// a worker gave up on the input: run it once more, alone and with twice the time, before reporting
+func c10shReportHang(res *Result, input, family string, limit time.Duration) bool {
+	out := make([]c10shAnswer, 1)
+	n, err := c10shWorkerRun([]string{input}, out, 2*limit)
+	if err != nil || n != 1 {
+		res.Broken = fmt.Sprintf("could not re-run %q after a worker gave up on it: %v", input, err)
+		return false
+	}
+	if !out[0].hung {
+		return false // slow machine, not a hang
+	}
+	res.AddViolation(Violation{Key: "C10/sh/hang", What: fmt.Sprintf("the tokenizers do not return within %v on %q (or allocate more than 3 GB)", 2*limit, input),
+		FoundInput: true, Size: 1 + len(input),
+		Replay: map[string]any{"input": hx(input), "input_quoted": q(input), "family": family, "kind": "hang"}})
+	return true
 }
 
 func (r *c10shRun) exhLen() int {
@@ -748,7 +858,7 @@ func runC10sh(ctx *Ctx) *Result {
 		"backslash + all strings <= 4 over 17 UTF-8 structure bytes; seeded grammar-guided and random strings up to 60 bytes. " +
 		"Each input is run from all 13 quoting states (ShAtom loop), through ShAtoms() and through repeated ShToken() = 15 traces per input. " +
 		"distinct_nontrivial = distinct inputs for which the ShAtom loop from the plain state returns at least two atoms or leaves the plain state"}
-	r := &c10shRun{ctx: ctx, res: res, seenNT: map[string]struct{}{}}
+	r := &c10shRun{ctx: ctx, res: res, seenNT: map[string]struct{}{}, explained: map[string]int{}}
 	rng := NewRng(ctx.Seed)
 	exh, ngram, nrand := 4, 30000, 30000
 	if ctx.Tier == "thorough" {
@@ -866,14 +976,13 @@ func replayC10sh(ctx *Ctx, rep map[string]any) *Result {
 	res := &Result{Rule: "replay"}
 	in, _ := rep["input"].(string)
 	input := unhx(in)
-	ans, err := c10shRunWorkers([]string{input}, 1, 60*time.Second)
+	ans, err := c10shRunWorkers([]string{input}, 1, 10*time.Second)
 	if err != nil {
 		res.Broken = err.Error()
 		return res
 	}
 	if ans[0].hung {
-		res.AddViolation(Violation{Key: "C10/sh/hang", What: fmt.Sprintf("the tokenizers do not return within 20 s on %q", input), FoundInput: true,
-			Replay: map[string]any{"input": hx(input), "kind": "hang"}})
+		c10shReportHang(res, input, "replay", 10*time.Second)
 		return res
 	}
 	c10shExplain(ctx, res, input, "replay")
